@@ -311,7 +311,30 @@ pub struct Outcome {
     pub panics: Vec<PanicRec>,
 }
 
+/// Progress file shared with the parent: (marker sequence number, call code), written before every call.
+pub struct Progress {
+    file: Option<std::fs::File>,
+    seq: u64,
+}
+impl Progress {
+    pub fn open() -> Self {
+        let file = std::env::var_os("C12_PROGRESS").and_then(|p| std::fs::OpenOptions::new().write(true).open(p).ok());
+        Progress { file, seq: 0 }
+    }
+    pub fn mark(&mut self, code: u64) {
+        use std::os::unix::fs::FileExt;
+        self.seq += 1;
+        if let Some(f) = &self.file {
+            let mut b = [0u8; 16];
+            b[0..8].copy_from_slice(&self.seq.to_le_bytes());
+            b[8..16].copy_from_slice(&code.to_le_bytes());
+            let _ = f.write_at(&b, 0);
+        }
+    }
+}
+
 pub struct Runner {
+    pub progress: Progress,
     empty: Option<(GrafeoDB, u64)>,
     g0: Option<(GrafeoDB, u64)>,
 }
@@ -337,7 +360,7 @@ pub struct SoloOpts {
 
 impl Runner {
     pub fn new() -> Self {
-        Runner { empty: None, g0: None }
+        Runner { progress: Progress::open(), empty: None, g0: None }
     }
     fn db(&mut self, kind: DbKind) -> (&GrafeoDB, u64) {
         let slot = match kind {
@@ -363,9 +386,16 @@ impl Runner {
     /// outcome of the probes).  `solo` = emit a `C` marker before every call.
     pub fn run_string(&mut self, lang: Lang, q: &str, reduced: bool, solo: Option<&SoloOpts>, out: &mut impl Write) -> Outcome {
         let mut o = Outcome { parsed: false, translated: false, calls: 0, ok: 0, err: 0, max_us: 0, panics: vec![] };
-        let marker = |c: &Call, out: &mut dyn Write| {
+        let mut progress = std::mem::replace(&mut self.progress, Progress { file: None, seq: 0 });
+        let mut marker = |c: &Call, out: &mut dyn Write| {
             let _ = writeln!(out, "C {}", c.desc());
             let _ = out.flush();
+            progress.mark(match c {
+                Call::Parse => 1,
+                Call::Translate => 2,
+                Call::Bind => 3,
+                Call::Exec { .. } => 4,
+            });
         };
         let only_fe0 = solo.map(|s| s.only_fe0).unwrap_or(false);
         let skip_fe = solo.map(|s| s.skip_fe).unwrap_or(0);
@@ -473,6 +503,8 @@ impl Runner {
                 self.dirty(*kind);
             }
         }
+        drop(marker);
+        self.progress = progress;
         o
     }
 }
@@ -502,6 +534,7 @@ pub fn worker_main(tier: vcore::Tier, lo: usize, hi: usize) -> i32 {
             let item = space.get(idx);
             let _ = writeln!(out, "S {idx}");
             let _ = out.flush();
+            runner.progress.mark(0);
             let o = runner.run_string(item.lang, &item.query, item.family == "ladder" && tier == vcore::Tier::Quick, None, &mut out);
             emit_outcome(idx, &o, &mut out);
         }
@@ -531,6 +564,7 @@ pub fn solo_main(case_file: &str, opts: SoloOpts) -> i32 {
         runner.db(DbKind::G0);
         let _ = writeln!(out, "S 0");
         let _ = out.flush();
+        runner.progress.mark(0);
         let o = runner.run_string(lang, &q, opts.reduced, Some(&opts), &mut out);
         emit_outcome(0, &o, &mut out);
         let _ = writeln!(out, "E");
